@@ -306,7 +306,7 @@ def run(ck):
             continue
         seen.add(key)
         ck.report(case, oracle=key, key="division:" + key, what=what)
-    if not fails:
+    if not ck.violations:
         if not ok:
             ck.report(dict(log=ck.proof_res["log"][-3000:]), unchecked="Properties_C09.vo", what="proof obligations of C09 no longer check")
         if broken:
